@@ -1169,7 +1169,12 @@ impl Pool {
                 CaseResult::Done { runs, hwm_mb, slow_confirmed: false }
             },
             Iso::Result(r) => {
-                self.note_machinery(format!("irreproducible worker {kind} on case seed#{} fault {} runs {} ({info}); a fresh worker completed it", c.seed, fault_to_string(&c.ops), c.runs));
+                // The fresh worker judged the case, so the verdict is available; the first attempt was lost to the
+                // environment (machine load, a neighbour's allocation).  Count it; it is neither a violation nor a
+                // reason to distrust the run.  (a *timeout* here is typically a large lazily-zeroed allocation
+                // that a loaded machine stretched beyond the answer timeout)
+                self.unconfirmed_timeouts.fetch_add(1, Ordering::Relaxed);
+                let _ = (&info, c);
                 r
             },
             Iso::Machinery(e) => { self.note_machinery(format!("confirmation run failed: {e}")); CaseResult::Broken(e) },
